@@ -262,3 +262,28 @@ Arguments mk_buf {A}.
 Arguments mk_dto {A}.
 Arguments mk_spec {A}.
 Arguments new_buf {A}.
+
+(** ------------------------------------------------------------------ *)
+(** Size arithmetic used by the port model. *)
+Section FifoSize.
+Context {A : Type} (z : A).
+
+Lemma push_unfold (e : A) b :
+  push e b = if (b_cap b <=? size b)%Z then None else Some (with_elems b (Some (content b ++ [e]))).
+Proof. reflexivity. Qed.
+
+Lemma can_push_leb (b : buf (A := A)) : negb (can_push b) = (b_cap b <=? size b)%Z.
+Proof. unfold can_push. rewrite Z.leb_antisym. reflexivity. Qed.
+
+Lemma size_app1 (b : buf (A := A)) e :
+  Z.of_nat (length (content b ++ [e])) = (size b + 1)%Z.
+Proof. unfold size. rewrite app_length. cbn [length]. lia. Qed.
+
+Lemma size_zero_nil (b : buf (A := A)) : (size b =? 0)%Z = match content b with [] => true | _ => false end.
+Proof. unfold size. destruct (content b); cbn [length]; lia. Qed.
+
+Lemma pop_cons (b : buf (A := A)) x r :
+  content b = x :: r -> pop z b = (x, with_elems b (Some r)).
+Proof. unfold pop. intros ->. reflexivity. Qed.
+
+End FifoSize.
